@@ -23,9 +23,9 @@ RULE = ("case = generated affine ensemble + configuration, run on the combined a
         "premise held for every contributing realization (merged: premise of the statement after failures); distinct key = (case index, path)")
 ASSUMPTIONS = ["merged estimation is only judged when realizations are identical, or perturbations are shared and no individual perturbation of a contributing realization failed"]
 REQUIRED = {"quick": {"grad_entries_compared": 5000, "fixed_entries_zero_checked": 1500, "merged_judged": 150, "stddev_judged": 200,
-                      "with_failed_perturbations_judged": 100, "filtered_judged": 150, "__nontrivial__": 1200},
+                      "with_failed_perturbations_judged": 100, "filtered_judged": 150, "with_variable_scaling_judged_candidates": 400, "__nontrivial__": 1200},
             "thorough": {"grad_entries_compared": 150000, "fixed_entries_zero_checked": 40000, "merged_judged": 4000, "stddev_judged": 5000,
-                         "with_failed_perturbations_judged": 3000, "filtered_judged": 4000, "__nontrivial__": 30000}}
+                         "with_failed_perturbations_judged": 3000, "filtered_judged": 4000, "with_variable_scaling_judged_candidates": 12000, "__nontrivial__": 30000}}
 N = {"quick": 2000, "thorough": 60000}
 RTOL = 1e-6
 
@@ -103,6 +103,10 @@ def gen_spec(rng):
     spec["ensemble"] = {"kind": "affine", "a": a.tolist(), "b": b.tolist()}
     spec["rmin"] = int(rng.integers(0, R + 1)) if rng.random() < 0.5 else 1
     spec["pmin"] = int(rng.integers(1, P + 1))
+    spec["_tspec"] = None
+    if rng.random() < 0.3:
+        spec["_tspec"] = {"vscale": np.round(10 ** rng.uniform(-0.7, 0.7, size=V), 3).tolist(),
+                          "voffset": np.round(rng.normal(size=V), 3).tolist() if rng.random() < 0.5 else None}
     nan = []
     if rng.random() < 0.4:
         for r in range(R):
@@ -122,6 +126,10 @@ def judge_gradient(obs, spec, cfg, gres, fvals, pvals, tag, judge_merged_values=
     F = n_obj + n_con
     R, P, V = spec["R"], spec["P"], spec["V"]
     a = np.array(spec["ensemble"]["a"])
+    if spec.get("_tspec") and spec["_tspec"].get("vscale") is not None:
+        # x_user = scale * x_opt + offset: the exact gradient in the coordinates the optimizer works in is scale * slope
+        a = a * np.asarray(spec["_tspec"]["vscale"])[None, None, :]
+        obs.count("with_variable_scaling_judged_candidates")
     mask = np.ones(V, dtype=bool) if spec.get("mask") is None else np.array(spec["mask"], dtype=bool)
     failed_f = np.isnan(fvals).any(axis=1)
     psucc = ~np.isnan(pvals).any(axis=2)
@@ -138,7 +146,9 @@ def judge_gradient(obs, spec, cfg, gres, fvals, pvals, tag, judge_merged_values=
     if gres.gradients is None:
         from checks.c01 import too_few_explained  # noqa: PLC0415
 
-        why = too_few_explained(spec, cfg, gres, fvals, failed_g)
+        # filters decide on the function values (function-level failures), estimators on the gradient-level failures
+        w1, w2 = too_few_explained(spec, cfg, gres, fvals, failed_f), too_few_explained(spec, cfg, gres, fvals, failed_g)
+        why = True if (w1 or w2) else (None if (w1 is None or w2 is None) else False)
         if why is None:
             obs.count("gradients_missing_ambiguous")
         elif why:
@@ -262,13 +272,15 @@ def _well_conditioned(M, nfree):
 
 def _some_function_without_survivor(spec, cfg, pm, x):
     from ropt.ensemble_evaluator import EnsembleEvaluator  # noqa: PLC0415
+    from vlib.transforms import make_transforms  # noqa: PLC0415
 
     ev = ens.RecordingEvaluator(spec)
-    ee = EnsembleEvaluator(cfg, None, ev, pm)
+    T = make_transforms(spec["_tspec"]) if spec.get("_tspec") else None
+    ee = EnsembleEvaluator(cfg, T, ev, pm)
     (fres,) = ee.calculate(x, compute_functions=True, compute_gradients=False)
     ev2 = ens.RecordingEvaluator(dict(spec, filters=None, omap_f=None, cmap_f=None, merge=False, estimators=None, omap_est=None, cmap_est=None))
-    cfg2 = ens.make_config(ev2.spec)
-    _, gres = EnsembleEvaluator(cfg2, None, ev2, pm).calculate(x, compute_functions=True, compute_gradients=True)
+    cfg2 = ens.make_config(ev2.spec, T)
+    _, gres = EnsembleEvaluator(cfg2, T, ev2, pm).calculate(x, compute_functions=True, compute_gradients=True)
     failed = np.asarray(gres.realizations.failed_realizations)
     configured = np.asarray(cfg.realizations.weights)
     for rows in (fres.realizations.objective_weights, fres.realizations.constraint_weights):
@@ -285,9 +297,12 @@ def run_case(case, obs):
     rng = rng_for(obs.seed, "c02", case["i"])
     spec = gen_spec(rng)
     case["spec"] = spec
-    cfg = ens.make_config(spec)
+    from vlib.transforms import make_transforms  # noqa: PLC0415
+
+    T = make_transforms(spec["_tspec"]) if spec.get("_tspec") else None
+    cfg = ens.make_config(spec, T)
     pm = ens.plugin_manager()
-    x = np.array(spec["x0"])
+    x = np.asarray(cfg.variables.initial_values, dtype=float)     # optimizer coordinates
     R, P = spec["R"], spec["P"]
     n_obj, n_con = len(spec["oweights"]), spec["n_con"]
     F = n_obj + n_con
@@ -299,7 +314,7 @@ def run_case(case, obs):
         obs.feature("bounds")
     for path in ("combined", "split"):
         ev = ens.RecordingEvaluator(spec)
-        ee = EnsembleEvaluator(cfg, None, ev, pm)
+        ee = EnsembleEvaluator(cfg, T, ev, pm)
         try:
             if path == "combined":
                 fres, gres = ee.calculate(x, compute_functions=True, compute_gradients=True)
